@@ -676,3 +676,57 @@ def r18_2(ctx):
 def r18_3(ctx):
     import rules_sched
     rules_sched.r03_1(ctx)
+
+
+@rule("C18", "R18.4", floor=3)
+def r18_4(ctx):
+    """no hang after a failure: Drop's drain loop can always be left once the channel is empty after an error — the error flag is
+    set on every failing path of Txtpp::run before the value is dropped, and Drop breaks on it; receives are non-blocking"""
+    lib = ctx.lib
+    run = body(ctx, "txtpp_run")
+    d = body(ctx, "txtpp_drop")
+    if run:
+        is_err = bool_call_edges(run, lib, "std::result::Result::<T, E>::is_err", True,
+                                 arg_pred=lambda t: has_call(C.trace(run, t["args"][0]), ROLE["txtpp_run_internal"])) | \
+            enum_edges(run, lib, "std::result::Result", lambda vs: vs == {"Err"}, src_pred=lambda c: has_call(c.src, ROLE["txtpp_run_internal"]))
+        sets = [bb for bb, si, st in run.stmts() if st["k"] == "assign" and st["lhs"]["p"] and st["lhs"]["p"][-1].get("name") == "has_error"
+                and st["rv"]["k"] == "use" and C.op_const(st["rv"]["op"]) == "true"]
+        rets = [bb for bb in C.live(run) if run.term(bb)["k"] == "return"]
+        if is_err and sets:
+            reached = run.reachable_from_edges(is_err, cut=out_edges(run, sets))
+            esc = [r for r in rets if r in reached and r not in sets]
+            if esc:
+                ctx.violation(["error-flag-skipped"], "Txtpp::run can return after a failed run without setting progress.has_error: Drop would then wait "
+                              "forever for done == total (the failing result was counted twice)", site=ctx.site(run, esc[0]))
+            else:
+                ctx.ok("every failing path of Txtpp::run sets has_error before returning", site=ctx.site(run, sets[0]))
+        else:
+            ctx.violation(["error-flag-missing"], "Txtpp::run no longer records a failed run in progress.has_error (Drop's drain loop relies on it to "
+                          "terminate when the counters do not balance)", site=ctx.site(run, 0))
+    if d:
+        recs = calls_to(d, "std::sync::mpsc::Receiver::<T>::try_recv")
+        blocking = [C.callee_name(t) for bb, t in d.calls() if C.callee_name(t) in (
+            "std::sync::mpsc::Receiver::<T>::recv", "std::sync::mpsc::Receiver::<T>::iter", "std::sync::mpsc::Receiver::<T>::recv_timeout")]
+        if blocking:
+            ctx.violation(["blocking-receive-in-drop"], "Drop uses the blocking %s: with the coordinator's own Sender alive it never returns" % blocking, site=ctx.site(d, 0))
+        elif recs:
+            # from the Empty arm, an exit (return) is reachable on the has_error edge without passing another receive or sleep
+            he_true = C.guard_edges(d, lib, lambda c, v, leaf: c.kind == "bool" and leaf is not None and leaf.kind == "field" and has_field([leaf], "has_error") and v is True)
+            rets = [bb for bb in C.live(d) if d.term(bb)["k"] == "return"]
+            cutset = out_edges(d, [bb for bb, t in recs] + [bb for bb, t in calls_to(d, "std::thread::sleep")])
+            if he_true and any(r in d.reachable_from_edges(he_true, cut=cutset) for r in rets):
+                ctx.ok("Drop leaves its drain loop on the has_error edge", site=ctx.site(d, recs[0][0]))
+            else:
+                ctx.violation(["drop-ignores-error-flag"], "Drop's drain loop cannot be left on the has_error edge: after a failed run it would spin "
+                              "until done == total, which never happens", site=ctx.site(d, recs[0][0]))
+        else:
+            ctx.ok("Drop does not drain the channel", site=ctx.site(d, 0))
+    ri = body(ctx, "txtpp_run_internal")
+    if ri:
+        blocking = [C.callee_name(t) for bb, t in ri.calls() if C.callee_name(t) in (
+            "std::sync::mpsc::Receiver::<T>::recv", "std::sync::mpsc::Receiver::<T>::iter")]
+        if blocking:
+            ctx.violation(["blocking-receive"], "the coordinator uses the blocking %s: it keeps a Sender itself, so a lost worker result blocks forever" % blocking,
+                          site=ctx.site(ri, 0))
+        else:
+            ctx.ok("the coordinator only polls the channel (try_recv)", site=ctx.site(ri, 0))
